@@ -17,6 +17,7 @@ Mathematical Background:
 
 from __future__ import annotations
 
+import copy
 from dataclasses import dataclass
 from functools import partial
 from typing import TYPE_CHECKING
@@ -78,6 +79,8 @@ def _response_coefficient_worker(
     """
     old = model.get_parameter_values()[parameter]
     if y0 is not None:
+        # Work on a copy, the caller's initial values must stay as they are
+        model = copy.deepcopy(model)
         model.update_variables(y0)
 
     model.update_parameters({parameter: old * (1 + displacement)})
